@@ -18,6 +18,9 @@ def _scan_one(args):
         return tid, None, None, "%s: %s" % (type(ex).__name__, ex) + "\n" + traceback.format_exc()[-1500:]
 
 
+HEAVY = {"Guderley", "RiemannGen", "RiemannJWL", "RMTV", "Sedov", "SDRZ", "RadShock"}
+
+
 def run_scans(jobs, procs=None):
     """jobs: list of (driver module name, state, groups, tid)"""
     procs = procs or min(16, os.cpu_count() or 4)
@@ -30,8 +33,16 @@ def run_scans(jobs, procs=None):
     if len(jobs) <= 2:
         return [_scan_one(j) for j in jobs]
     ctx = mp.get_context("fork")
+    # expensive families first and one by one, the rest in chunks
+    heavy = [j for j in jobs if j[1].get("fam", j[1].get("st", {}).get("fam")) in HEAVY]
+    light = [j for j in jobs if j not in heavy]
     with ctx.Pool(procs) as pool:
-        return pool.map(_scan_one, jobs, chunksize=max(1, len(jobs) // (procs * 8)))
+        hres = [pool.apply_async(_scan_one, (j,)) for j in heavy]
+        lres = pool.map_async(_scan_one, light, chunksize=max(1, len(light) // (procs * 8))) if light else None
+        out = [r.get() for r in hres] + (lres.get() if lres else [])
+    order = {id(j): i for i, j in enumerate(jobs)}
+    back = {j[3]: i for i, j in enumerate(jobs)}
+    return sorted(out, key=lambda r: back.get(r[0], 0))
 
 
 def cfg_key(state):
